@@ -1080,10 +1080,12 @@ static int32_t s_pstm_add(const pstm_int *a, const pstm_int *b, pstm_int *c)
 
     if (c->used > c->alloc)
     {
-        if (pstm_grow(c, c->used) != PSTM_OKAY)
+        c->used = oldused;
+        if (pstm_grow(c, y) != PSTM_OKAY)
         {
             return PS_MEM_FAIL;
         }
+        c->used = y;
     }
 
     t = 0;
